@@ -412,7 +412,10 @@ def monParse (d : Dicts) (mode : String) (w : Bytes) (obs : List String) : List 
     let lenOK := declared == some (rawLen mid : Int)
     let hasXml := nums.contains 212
     let len := if shape && !hasXml && !lenOK && isOk then ["rejects_length"] else []
-    let wf := shape && lenOK && !tenMember d && (!hasXml || (fs.any (fun f => tagNum f.tagText = some 212 ∧ smallNat f.val > 0 ∧ secOf d 212 == .h)))
+    -- XMLData: claimed only when every field that READS 212 is spelled `212` (the scanner frames the data field by that text, the parser by the number)
+    let wf := shape && lenOK && !tenMember d &&
+      (!hasXml || (fs.all (fun f => tagNum f.tagText != some 212 || f.tagText == [50, 49, 50]) &&
+                   fs.any (fun f => tagNum f.tagText = some 212 ∧ smallNat f.val > 0 ∧ secOf d 212 == .h)))
     -- XML: only the canonical use is claimed (212 directly followed by its 213)
     let acc := if wf && !isOk && obs != ["panic"] then [s!"accepts_wf\{dict={k}}"] else []
     let faithful :=
